@@ -33,7 +33,7 @@ ASSUMPTIONS = ["must-be-errored is demanded only for responses that violate the 
 PROBES = ["server_wsgi", "server_bare", "client_mode", "truncated_fin", "truncated_rst", "sibling_completed", "errored_response_reported",
           "redirect_without_location", "chunk_size_mutation", "absolute_url_mutation", "long_line", "random_bytes", "valid_message_mutated"]
 BOUNDS = dict(quick=dict(byz_connections=3), thorough=dict(byz_connections=4))
-TIERS = dict(quick=dict(cases=20000, wall=45.0), thorough=dict(cases=1200000, wall=420.0))
+TIERS = dict(quick=dict(cases=40000, wall=60.0), thorough=dict(cases=1200000, wall=420.0))
 SIM_TIME_UNIT = "net steps"
 
 CHUNK_SIZES = [b"zz", b"-5", b"+5", b"0x10", b"1_0", b"\xff\xfe", b"", b" ", b"ffffffffffffffffffff", b"5 5", b"g", b"3;ext=1", b"3 ; a", b"-0",
